@@ -22,7 +22,6 @@
 (*                                      and forgets the one it had (clear() keeps the array)        *)
 (*       zero_reserve                   calc_reserve(0, 0) = 0: an empty set built with reserve 0   *)
 (*                                      allocates 0 elements and writes one                         *)
-(*       ftha_empty_reads_before        FieldTrait_Hash_Array over 0 traits reads traits[-1]        *)
 EXTENDS Realm
 
 \* ---- 1. static tables ----------------------------------------------------------------------------
@@ -31,14 +30,11 @@ TableFind(keys, k) ==
     LET p == LowerBound(keys, k) IN IF p # Len(keys) /\ ~(k < keys[p + 1]) THEN p ELSE -1
 
 \* hash array: size = largest key + 1, slot = offset of the entry, 0 when absent
+\* (a table is never empty in generated code: FieldTrait_Hash_Array reads its last trait to size the array)
 HashSize(keys, Dev) == IF keys = <<>> THEN 0 ELSE keys[Len(keys)] + 1
 HashSlot(keys, k) == IF Member(keys, k) THEN PosOf(keys, k) ELSE 0
 HashFind(keys, k, Dev) ==
     IF k < HashSize(keys, Dev) /\ keys[HashSlot(keys, k) + 1] = k THEN HashSlot(keys, k) ELSE -1
-\* offsets of the trait array the constructor reads (to size the array, then to fill it)
-HashCtorReads(keys, Dev) ==
-    (IF keys = <<>> /\ "ftha_empty_reads_before" \notin Dev THEN {} ELSE {Len(keys) - 1}) \cup (0..(Len(keys) - 1))
-
 MapLookup(keys, k) == Idx(keys, k)       \* the meaning: offset of k's own entry, -1 iff absent
 
 \* ---- 2. the insertable sorted set ---------------------------------------------------------------
